@@ -63,8 +63,8 @@ Print Assumptions C11_strangers_harmless.
 
 (* D1 as a modelled outcome: without the `p != NULL &&` guard a terminating stranger is a NULL dereference. *)
 Example C11_strangers_regression :
-  reap_one false {| ints := [new_rec 0 1 5001]; wlock := Some 0; reaped := []; spawning := None |} 5002 9 = Crash /\
-  reap_one false {| ints := [new_rec 0 1 5001]; wlock := Some 0; reaped := []; spawning := None |} 5002 4991 <> Crash.
+  reap_one false {| ints := [new_rec 0 1 5001]; wlock := Some 0; reaped := []; spawning := None; kpend := []; draining := false |} 5002 9 = Crash /\
+  reap_one false {| ints := [new_rec 0 1 5001]; wlock := Some 0; reaped := []; spawning := None; kpend := []; draining := false |} 5002 4991 <> Crash.
 Proof. split; [reflexivity|discriminate]. Qed.
 
 (* iv_wait_interest_kill calls kill() only while the termination of the pid has not been reaped (under the lock
@@ -75,6 +75,23 @@ Theorem C11_kill_safe : forall s t id sig performed s', reachable s -> step s (W
     (performed = false -> w_dead w = true /\ mem (w_pid w) (reaped s) = true).
 Proof. exact kill_safe. Qed.
 Print Assumptions C11_kill_safe.
+
+(* Draining.  Ground truth enters through WChange (a child changed state; SIGCHLD was raised): wait4 reports only
+   such changes, each once.  A reaper that has reaped something stays in its critical section (no step but a
+   further reap or the end-of-drain WNone -- wait4 returned 0 / ECHILD -- clears `draining`, and the unlock needs
+   it cleared), so one SIGCHLD drains everything; and when the whole process is at rest (WIdle) no live interest's
+   child has an unreported change -- with C11_routing(4): every change of such a child has been delivered, and no
+   such child is left a zombie.  (That the SIGCHLD reaches a reaper and the process does not rest before is
+   C10 / C08: label WIdle, like WBlock.) *)
+Theorem C11_drained :
+  (forall s t pid st s', step s (WReap t pid st) = Some s' ->
+     draining s' = true /\ mem_pair pid st (kpend s) = true /\ kpend s' = remove_first pid st (kpend s) /\ wlock s' = Some t) /\
+  (forall s l s', draining s = true -> step s l = Some s' -> draining s' = true \/ exists t, l = WNone t) /\
+  (forall s t s', step s (WNone t) = Some s' -> wlock s = Some t /\ draining s' = false /\ ints s' = ints s) /\
+  (forall s t s', step s (WUnlock t) = Some s' -> draining s = false) /\
+  (forall s t s' w, step s (WIdle t) = Some s' -> In w (ints s) -> w_dead w = false -> owes (w_pid w) (kpend s) = false).
+Proof. exact (conj drain_reap (conj drain_persists (conj drain_none (conj drain_unlock idle_nothing_owed)))). Qed.
+Print Assumptions C11_drained.
 
 Theorem C11_invariant : forall s, reachable s -> Inv s.
 Proof. exact reachable_inv. Qed.
@@ -92,17 +109,20 @@ Print Assumptions C11_monitor_accepts.
 Definition ex_trace : list label :=
   [WLock 0; WFork 0 1 5001; WInsert 0 1; WUnlock 0;
    WLock 1; WReg 1 101 5002; WUnlock 1;
-   WLock 1; WReap 1 5002 4991; WReap 1 5003 768; WReap 1 5001 0; WUnlock 1;
+   WChange 9 5002 4991; WChange 9 5003 768; WChange 9 5001 0;
+   WLock 1; WReap 1 5002 4991; WReap 1 5003 768; WReap 1 5001 0; WNone 1; WUnlock 1;
    WLock 0; WSteal 0 1; WUnlock 0;
+   WChange 9 5002 65535;
    WLock 1; WReap 1 5002 65535;
    WDeliver 0 1 0;
-   WReap 1 5002 9; WUnlock 1;
+   WChange 9 5002 9;
+   WReap 1 5002 9; WNone 1; WUnlock 1;
    WLock 0; WKill 0 1 15 false; WUnlock 0;
    WLock 1; WSteal 1 101; WUnlock 1;
    WDeliver 1 101 4991; WDeliver 1 101 65535; WDeliver 1 101 9;
    WLock 1; WKill 1 101 15 false; WUnlock 1;
    WLock 1; WUnreg 1 101; WUnlock 1;
-   WBlock 0; WBlock 1].
+   WBlock 0; WBlock 1; WIdle 0].
 
 Example C11_nonvacuous :
   accepts ex_trace = true /\ monitor ex_trace = true /\
